@@ -399,6 +399,16 @@ def r5(ctx):
         elif ("not", sent_test) in bs or any(b == Nc.b(parse_expr(f"CONTROL_SENTINEL_VALUE not in {a}")) for b in bs):
             arms["without"] = ret
     w, wo = arms.get("with"), arms.get("without")
+    # necessary condition, whatever the algorithm: deciding "the values are exactly 0..n-1" needs the DISTINCT values
+    # (unique / set / bincount / sort + diff); aggregate statistics (min, max, size, sum) accept duplicated ids with a gap
+    DISTINCT = ("np.unique", "unique", "set", "frozenset", "np.bincount", "np.sort", "sorted", "np.diff", "np.isin", "np.in1d", "np.array_equal", "np.setdiff1d", "pandas.unique")
+    accepting = [ret for conds, ret in paths if ret is not None and not (isinstance(ret, ast.Constant) and isinstance(ret.value, bool))]
+    blind = [ret for ret in accepting if not any(isinstance(x, ast.Call) and ((call_name(x) or "") in DISTINCT or attr_tail(x) in ("unique", "nunique", "sort")) for x in ast.walk(ret))]
+    if blind:
+        ctx.check("R5", f"{v.site()}::definition", False, "",
+                  f"the validator accepts on `{U(blind[0])[:100]}`, which never looks at the distinct values (no unique / set / bincount / sort): "
+                  f"duplicated ids with a gap (e.g. 0, 0, 2) pass min/max/size tests although the ids are not dense")
+        return
     if w is None or wo is None:
         raise AnalysisError(f"{v.site()}: the validator no longer has the sentinel / no-sentinel arms comparing sorted unique values with a range; "
                             f"a different algorithm cannot be judged dense-or-not by this rule")
